@@ -318,11 +318,15 @@ def writeExprloc (e : Endian) (enc : Encoding) (uo : UnitOffs) (pos : Nat) (ops 
   let (bs, fx) ← exprWrite e enc uo true (pos + pre.length) ops
   pure (pre ++ bs, fx)
 
-/-- `loc.rs` `write_expression`: `u16` length up to DWARF 4, ULEB128 in DWARF 5 -/
+/-- the length field of `loc.rs` `write_expression`: `u16` up to DWARF 4, ULEB128 in DWARF 5 -/
+def locPrefix (e : Endian) (enc : Encoding) (size : Nat) : Out Bytes :=
+  if enc.version ≤ 4 then Ints.writeUdata e size 2 else .ok (Leb.encodeU size)
+
+/-- `loc.rs` `write_expression` -/
 def writeLocExpr (e : Endian) (enc : Encoding) (uo : UnitOffs) (pos : Nat) (ops : List Operation) :
     Out (Bytes × List Fixup) := do
   let size ← exprSize enc uo ops
-  let pre ← if enc.version ≤ 4 then Ints.writeUdata e size 2 else .ok (Leb.encodeU size)
+  let pre ← locPrefix e enc size
   let (bs, fx) ← exprWrite e enc uo true (pos + pre.length) ops
   pure (pre ++ bs, fx)
 
@@ -411,5 +415,114 @@ def image (enc : Encoding) (offs : Nat → Option Nat) (disp : Int) (body : Byte
   | .wasmLocal i => some (.wasmLocal i)
   | .wasmGlobal i => some (.wasmGlobal i)
   | .wasmStack i => some (.wasmStack i)
+
+/-- the branch displacement `Operation::write` computes for a `skip`/`branch` written at `pos` -/
+def dispOf (offsets : List Nat) (pos : Nat) : Operation → Int
+  | .skip t => ((offsets.getD t 0 : Nat) : Int) - ((pos : Int) + 3)
+  | .branch t => ((offsets.getD t 0 : Nat) : Int) - ((pos : Int) + 3)
+  | _ => 0
+
+/-- the bytes of the sub-expression of an `entry_value` written at `pos` -/
+def bodyOf (e : Endian) (enc : Encoding) (uo : UnitOffs) (hasRefs : Bool) (pos : Nat) : Operation → Bytes
+  | .entryValue x =>
+    match exprSize enc uo x with
+    | .ok n =>
+      match exprWrite e enc uo hasRefs (pos + (1 + (Leb.encodeU n).length)) x with
+      | .ok (b, _) => b
+      | _ => []
+    | _ => []
+  | _ => []
+
+/-- reader-side image of an operation written at `pos` with the given offsets vector (reference
+fields before fix-up: 0) -/
+def opImage (e : Endian) (enc : Encoding) (uo : UnitOffs) (hasRefs : Bool) (offsets : List Nat) (pos : Nat)
+    (op : Operation) : Option Op.Operation :=
+  image enc (uo.getD (fun _ => none)) (dispOf offsets pos op) (bodyOf e enc uo hasRefs pos op) 0 op
+
+/-- Operand ranges of the Rust types (`u64`, `i64`, `Register(u16)`, `u8`, `u32`, `DwOp(u8)`), plus:
+`simple` is one of the operand-free opcodes `Expression::op` is documented for; raw bytecode has no
+operation-level meaning; and **`piece` is below 2^61 bytes** — the reader reports piece sizes in
+bits as `u64` and rejects larger ones (`InvalidPiece`), see finding C15-1. -/
+def OpWf : Operation → Prop
+  | .raw _ => False
+  | .simple opcode => (simpleImage opcode).isSome
+  | .address (.constant v) => v < 2 ^ 64
+  | .unsignedConstant v => v < 2 ^ 64
+  | .signedConstant v => -(2 : Int) ^ 63 ≤ v ∧ v < 2 ^ 63
+  | .frameOffset o => -(2 : Int) ^ 63 ≤ o ∧ o < 2 ^ 63
+  | .registerOffset r o => r < 2 ^ 16 ∧ -(2 : Int) ^ 63 ≤ o ∧ o < 2 ^ 63
+  | .registerType r _ => r < 2 ^ 16
+  | .pick i => i < 2 ^ 8
+  | .derefSize _ size => size < 2 ^ 8
+  | .derefType _ size _ => size < 2 ^ 8
+  | .plusConstant v => v < 2 ^ 64
+  | .register r => r < 2 ^ 16
+  | .implicitValue data => data.length < 2 ^ 64
+  | .implicitPointer _ o => -(2 : Int) ^ 63 ≤ o ∧ o < 2 ^ 63
+  | .piece n => n < 2 ^ 61
+  | .bitPiece s o => s < 2 ^ 64 ∧ o < 2 ^ 64
+  | .wasmLocal i => i < 2 ^ 32
+  | .wasmGlobal i => i < 2 ^ 32
+  | .wasmStack i => i < 2 ^ 32
+  | _ => True
+
+instance (op : Operation) : Decidable (OpWf op) := by
+  cases op <;> try (unfold OpWf; infer_instance)
+  case address a => cases a <;> (unfold OpWf; infer_instance)
+
+/-- emitted length of one operation (0 if its size is an error) -/
+def opLen (enc : Encoding) (uo : UnitOffs) (op : Operation) : Nat :=
+  match opSize enc uo op with
+  | .ok n => n
+  | _ => 0
+
+/-- What `OperationIter` should yield on the bytes of an expression written at `pos`: the image of
+every operation with the offset (relative to the start of the expression, counted from `start`) at
+which it ends. -/
+def expectedDecode (e : Endian) (enc : Encoding) (uo : UnitOffs) (hasRefs : Bool) (offsets : List Nat) :
+    Nat → Nat → List Operation → List (Op.Operation × Nat)
+  | _, _, [] => []
+  | pos, start, op :: rest =>
+    let n := opLen enc uo op
+    ((opImage e enc uo hasRefs offsets pos op).getD .nop, start + n) ::
+      expectedDecode e enc uo hasRefs offsets (pos + n) (start + n) rest
+
+/-- `op` is a `skip` or `branch` to operation index `t` -/
+def isBranchTo (op : Operation) (t : Nat) : Prop := op = .skip t ∨ op = .branch t
+
+/-- the reader-side operation a branch with displacement `d` decodes to -/
+def branchImage (op : Operation) (d : Int) : Op.Operation :=
+  match op with
+  | .branch _ => .bra d
+  | _ => .skip d
+
+/-- the unit entry an operation refers to through the offsets function (ULEB128 or 4-byte unit
+offset), not looking into `entry_value` bodies -/
+def directRef : Operation → Option Nat
+  | .constantType base _ => some base
+  | .registerType _ base => some base
+  | .derefType _ _ base => some base
+  | .call entry => some entry
+  | .convert (some base) => some base
+  | .reinterpret (some base) => some base
+  | .parameterRef entry => some entry
+  | _ => none
+
+mutual
+/-- every unit entry the operation refers to (also inside `entry_value`) has an offset -/
+def refsKnown (offs : Nat → Option Nat) : Operation → Bool
+  | .constantType base _ => (offs base).isSome
+  | .registerType _ base => (offs base).isSome
+  | .derefType _ _ base => (offs base).isSome
+  | .call entry => (offs entry).isSome
+  | .convert (some base) => (offs base).isSome
+  | .reinterpret (some base) => (offs base).isSome
+  | .parameterRef entry => (offs entry).isSome
+  | .entryValue body => refsKnownAll offs body
+  | _ => true
+def refsKnownAll (offs : Nat → Option Nat) : List Operation → Bool
+  | [] => true
+  | op :: rest => refsKnown offs op && refsKnownAll offs rest
+end
 
 end Gimli.WOp
